@@ -24,9 +24,11 @@ pub fn oracle(c: &PuCtx, rec: &mut Rec) {
         let have = post.b(PM, d);
         if let Some(p) = post.pools.iter().find(|p| &p.pool_info.lp_denom == d) {
             // LP denom: only the permanently locked minimum
+            // ... plus LP a depositor explicitly had minted to the pool manager (receiver = the contract): a gift, booked like a donation
+            let gifted = c.g1.donated.get(d).copied().unwrap_or(0);
             let want = c.g1.locked.get(&p.pool_info.pool_identifier).copied().unwrap_or(0);
-            if have != want {
-                rec.viol("C01_lp_held", format!("pool manager holds {have} of {d}, locked minimum observed at first deposit is {want}"));
+            if have != want + gifted {
+                rec.viol("C01_lp_held", format!("pool manager holds {have} of {d}, locked minimum observed at first deposit is {want}, gifted by depositors {gifted}"));
             }
             if post.sup(d) > 0 && want == 0 {
                 rec.viol("C01_no_locked_minimum", format!("{d} has supply {} but nothing locked", post.sup(d)));
